@@ -3,6 +3,7 @@ package actionlint
 import (
 	"strconv"
 	"strings"
+	"unicode/utf8"
 )
 
 //go:generate go run ./scripts/generate-availability ./availability.go
@@ -742,9 +743,9 @@ func (rule *RuleExpression) checkExprsIn(s string, pos *Pos, quoted, checkUntrus
 			break
 		}
 
-		start := idx + 3 // 3 means removing "${{"
+		start := idx + 3                            // 3 means removing "${{"
+		offset += utf8.RuneCountInString(s[:start]) // Column is counted in characters, not in bytes
 		s = s[start:]
-		offset += start
 		col := col + offset
 
 		ty, offsetAfter, ok := rule.checkSemantics(s, line, col, checkUntrusted, workflowKey)
@@ -756,8 +757,8 @@ func (rule *RuleExpression) checkExprsIn(s string, pos *Pos, quoted, checkUntrus
 		}
 		ts = append(ts, typedExpr{ty, Pos{line, col - 3}})
 
+		offset += utf8.RuneCountInString(s[:offsetAfter])
 		s = s[offsetAfter:]
-		offset += offsetAfter
 	}
 
 	return ts, true
